@@ -730,9 +730,9 @@ def r01_9(ctx):
             k = op_int(rv["b"])
             if la is None:
                 continue
-            sl, leaves = backward_slice(f, [la])
-            calls = [lf[2] for lf in leaves if lf[0] == "call"]
-            if not calls or not all(callee_is(c, "Reader::index") for c in calls):
+            # the minuend is the reader index itself (through copies), an unsigned quantity
+            sc = f.src(la)
+            if not (sc[0] == "call" and callee_is(sc[2], "Reader::index")) or f.locals[la]["ty"] != "usize":
                 continue
             n += 1
             seen[short(f.id)] += 1
